@@ -286,7 +286,12 @@ def _observe(text, libs, work):
     out["executed"] = list(_LOG)
     out["new_files"] = sorted(set(os.listdir(work)) - before)
     for f in out["new_files"]:
-        os.remove(os.path.join(work, f))
+        if os.path.isdir(os.path.join(work, f)):
+            import shutil
+
+            shutil.rmtree(os.path.join(work, f), ignore_errors=True)
+        else:
+            os.remove(os.path.join(work, f))
     return out
 
 
@@ -618,7 +623,15 @@ def _run_faults(case):
             viols.append(V("C12:faults:valid-model-fails", "the unmodified model %d fails with %s: %s" % (mi, ob["cls"], ob["exc"]), model=mi))
         elif len({r for _, r in ob["executed"]}) != len(model):
             viols.append(V("C12:faults:valid-model-partial", "the unmodified model %d executed %d of %d commands" % (mi, len(ob["executed"]), len(model)), model=mi))
-        for fname, fm, (ci, ai), classes, level in c11._faults(model):
+        variants = []
+        for flt in c11._faults(model):
+            variants.append(flt)
+            fm = flt[1]
+            if any(c[1] == "EEMSWrite" for c in fm):
+                # the same fault in a model whose output goes to a folder that does not exist (yet): rejecting must not create it
+                fm2 = [(r, n, [(an, ("q", "newdir/deeper/out.csv")) if (n == "EEMSWrite" and an == "OutFileName") else (an, v) for an, v in a]) for r, n, a in fm]
+                variants.append((flt[0] + ":output-folder-missing", fm2) + tuple(flt[2:]))
+        for fname, fm, (ci, ai), classes, level in variants:
             text = G.render(G.items_of(fm))[0]
             ob = _observe(text, CSV, work)
             evals += 1
